@@ -839,6 +839,7 @@ func c12ExecMux(in *c12In) *c12Obs {
 		factories = append(factories, mkFactory(i))
 	}
 	mx = bstream.NewMultiplexedSource(factories, h)
+	var release func(underLock bool)
 	ctx.onPoint = func(p, n int) {
 		if p == 24 && !mx.IsTerminating() {
 			// LockedInit accepted: the source created last is being started
@@ -861,6 +862,9 @@ func c12ExecMux(in *c12In) *c12Obs {
 				for !mx.IsTerminating() {
 					time.Sleep(20 * time.Microsecond)
 				}
+				// a parked handler call is released now (the main goroutine is waiting for this round to end): the
+				// source waiting for handlerLock makes its test while the source is terminating, not yet terminated
+				release(true)
 			default:
 				doShutdown()
 			}
@@ -940,7 +944,7 @@ func c12ExecMux(in *c12In) *c12Obs {
 			}
 		}
 	}
-	release := func() {
+	release = func(underLock bool) {
 		if held < 0 {
 			return
 		}
@@ -949,7 +953,14 @@ func c12ExecMux(in *c12In) *c12Obs {
 		heldMu.Unlock()
 		close(rel)
 		waitAck(held)
-		checkFail()
+		if underLock {
+			// another Shutdown is in progress (waiting for sourcesLock): a handler failure does not terminate the source by itself
+			if atomic.LoadInt32(&ctx.failed) == 1 {
+				failChecked = true
+			}
+		} else {
+			checkFail()
+		}
 		if waiter >= 0 {
 			atomic.StoreInt32(&gateOn, 0)
 			heldMu.Lock()
@@ -996,7 +1007,7 @@ func c12ExecMux(in *c12In) *c12Obs {
 				atomic.StoreInt32(&holdArmed, 1)
 			}
 		case "release":
-			release()
+			release(false)
 		case "shutdown":
 			shutOnce.Do(func() {})
 			d := make(chan struct{})
@@ -1010,7 +1021,7 @@ func c12ExecMux(in *c12In) *c12Obs {
 		}
 	}
 	// finish: let a parked handler call return, make sure a Shutdown was called, release the Run goroutine for good
-	release()
+	release(false)
 	d := make(chan struct{})
 	go func() { doShutdown(); close(d) }()
 	select {
@@ -1479,6 +1490,12 @@ func c12Corpus() []any {
 	add(c12In{Kind: "mux", NSlots: 2, Supply: d1, Cmds: append([]c12Cmd{{Op: "arm", Point: 27, N: 1}}, mk(c12Cmd{Op: "round"}, c12Cmd{Op: "release"})...)})
 	add(c12In{Kind: "mux", NSlots: 2, Supply: d1, Cmds: append([]c12Cmd{{Op: "arm", Point: 26, N: 1}}, mk(c12Cmd{Op: "release"}, c12Cmd{Op: "round"})...)})
 	add(c12In{Kind: "mux", NSlots: 2, Supply: d1, Cmds: append([]c12Cmd{{Op: "arm", Point: 25, N: 2}}, mk(c12Cmd{Op: "release"}, c12Cmd{Op: "round"})...)})
+	// Shutdown started under sourcesLock (terminating channel closed, callback waiting for the lock): the parked call is
+	// released there, the waiting source makes its test while the source is terminating and not yet terminated
+	add(c12In{Kind: "mux", NSlots: 2, Supply: d1, Cmds: append([]c12Cmd{{Op: "arm", Point: 22, N: 2}}, mk(c12Cmd{Op: "round"}, c12Cmd{Op: "round"})...)})
+	add(c12In{Kind: "mux", NSlots: 2, Supply: d1f, Cmds: append([]c12Cmd{{Op: "arm", Point: 22, N: 2}}, mk(c12Cmd{Op: "round"}, c12Cmd{Op: "round"})...)})
+	add(c12In{Kind: "mux", NSlots: 3, Supply: [][]c12Ev{c12Blocks(1, 2, 0), c12Blocks(3, 2, 0), {{Fail: true}}, c12Blocks(7, 2, 0)},
+		Cmds: []c12Cmd{{Op: "round"}, {Op: "deliver", K: 2}, {Op: "hold"}, {Op: "deliver", K: 0}, {Op: "deliver", K: 1}, {Op: "arm", Point: 23, N: 4}, {Op: "round"}, {Op: "round"}}})
 	// no Shutdown: the waiting source makes its call once the lock is free (the repair must not drop it)
 	add(c12In{Kind: "mux", NSlots: 2, Supply: d1, Cmds: mk(c12Cmd{Op: "release"}, c12Cmd{Op: "deliver", K: 1}, c12Cmd{Op: "deliver", K: 0}, c12Cmd{Op: "round"})})
 	// the scenario ends with the call still parked (released by the finish), Shutdown during the reconnect of a failed source
